@@ -4,6 +4,22 @@ and record in its meta.json which checks/rules detect it; also fills `needs_to_m
 import json, os, re, subprocess, sys
 VERIF = os.path.dirname(os.path.dirname(os.path.abspath(__file__)))
 NEEDS = {
+ 'seed-C01-3': 'the same StripedSequence configured for a motif of width >= 2 and then reconfigured for a wider one: the additional look-ahead rows are copied from rows 0.. instead of rows wrap..; a first configuration is unaffected',
+ 'seed-C02-3': "AVX2 host, a scanner block of >= 2 rows whose only qualifying 8-bit scores sit in the block's last row (e.g. one site at position col*R + R-1): max_u8 never reads that row, the block is skipped and the hits are lost",
+ 'seed-C03-3': 'two near-tied top positions that 8-bit rounding reorders (exact(B) > exact(A), dscore(B) < dscore(A)), A visited first as an improvement over an earlier hit; depends on block size and prior next() calls',
+ 'seed-C04-3': 'AVX2 / dispatched stripe_into into a reused buffer that held a non-empty sequence, with a new sequence of length exactly 0: the early return now precedes the take()/reset',
+ 'seed-C05-3': 'AVX2 encoder, length > 32 and not a multiple of 32, with one invalid byte in a vector block and a different one in the scalar tail: the later one is reported',
+ 'seed-C06-3': 'StripedSequence::sample with length % C != 0 on recycled (non-zero) heap memory, then Protein scoring through the AVX2 gather kernel: padding cells of the uninitialised matrix are used as look-up indices',
+ 'seed-C07-3': 'a non-empty f32 score matrix whose cells are all -inf (every window contains a symbol with zero frequency and no pseudocount): AVX2 max returns f32::MIN',
+ 'seed-C08-3': 'AVX2 host and a window whose 8-bit cell sum exceeds 255 while each half-sum of the 2-way unrolled row loop stays below 256: the final wrapping merge yields sum mod 256',
+ 'seed-C09-3': 'rescale(bg) with a non-default background followed by reading background(), rescaling again, or to_scoring(): the result keeps reporting the old background',
+ 'seed-C10-3': 'a FrequencyMatrix whose wildcard (N) column is position dependent and not palindromic: reverse_complement leaves that column in its original row order',
+ 'seed-C14-3': 'raw JASPAR reader, a record parsed while start != 0 (a record less than half as long as an earlier one, a small-capacity BufReader, or leading bytes before the first header)',
+ 'seed-C15-3': 'a TRANSFAC DT line whose date kind differs from created/updated only in ASCII case (one byte c -> C in a valid file): unreachable!() is reached',
+ 'seed-C16-3': 'a data set containing the unknown symbol N/X whose sequence is held out at least once: its N count is never subtracted from the background and is re-added on inclusion',
+ 'seed-C17-3': 'WeightMatrix.log_odds(background, base) with a non-uniform background and base != 2 in the same call: base is ignored on the rescale path',
+ 'seed-C18-3': 'stripe, then score or scan with a motif of length >= 2, then .copy() / copy.copy() and memoryview: the copy recomputes its shape from rows that include the look-ahead rows',
+ 'seed-C19-3': 'a resize that grows within the existing capacity (new(8), fill, resize(2), resize(8); reserve(k) then resize(k)): the re-exposed rows keep stale or uninitialised contents',
  'seed-C01-1': 'the same StripedSequence configured twice with increasing motif width (configure(&short) then configure(&long)); a fresh sequence configured once is unaffected',
  'seed-C02-1': 'a window whose discretised column scores sum above 255 (exact or near consensus occurrence) together with a threshold that scales to a non-trivial u8 cut-off',
  'seed-C03-1': 'two positions within 8-bit rounding noise of the top score, the lower-exact/higher-u8 one visited first and installed through the Some(hit) branch',
